@@ -25,6 +25,17 @@ const (
 	oldEventsFileName = "events.jsonl" // Legacy name, kept for backwards compatibility
 )
 
+// maxEventLineBytes is the longest log line readers accept; writers refuse to record an event that
+// would not fit, because a longer line makes every later read of the log fail.
+const maxEventLineBytes = 10 * 1024 * 1024
+
+func checkEventLineFits(data []byte) error {
+	if len(data)+1 >= maxEventLineBytes {
+		return fmt.Errorf("event too large (%d bytes, limit %d): title/body too long for the log format", len(data)+1, maxEventLineBytes)
+	}
+	return nil
+}
+
 func resolveErgoDir(start string) (string, error) {
 	// Search upward from the absolute location: for a relative start ("." or "..") the walk
 	// would otherwise stop at "." (or even step from ".." down into "."), missing the
@@ -124,8 +135,6 @@ func readEvents(path string) ([]Event, error) {
 		return nil, err
 	}
 	defer file.Close()
-
-	const maxEventLineBytes = 10 * 1024 * 1024
 
 	verifPoint("read.probe")
 	endsWithNewline := false
@@ -246,6 +255,9 @@ func appendEvents(path string, events []Event) error {
 		if err != nil {
 			return err
 		}
+		if err := checkEventLineFits(data); err != nil {
+			return err
+		}
 		batch = append(batch, data...)
 		batch = append(batch, '\n')
 	}
@@ -267,6 +279,9 @@ func writeEventsFile(path string, events []Event) error {
 	for _, event := range events {
 		data, err := json.Marshal(event)
 		if err != nil {
+			return err
+		}
+		if err := checkEventLineFits(data); err != nil {
 			return err
 		}
 		verifPoint("tmp.write")
